@@ -106,6 +106,7 @@ def run_one(job):
                 contracts.post_invariants(I, inst, r['results'], r.get('args', []))
                 mm.check_root_post(I, inst, r['results'], r.get('args', []))
                 mm.check_domain(I, inst, vname, r['results'])
+                mm.check_spec_post(I, inst, r['results'], r.get('args', []))
                 eqspec.check(I, inst, r['results'], r.get('args', []))
                 if post:
                     post(I, inst, r['results'])
